@@ -118,10 +118,26 @@ DistanceOK(e, T) ==
             /\ r[3] = 100 * d[1]
             /\ PropOK(r[4], d[2], d[3])
             /\ r[4] >= 0 /\ r[4] <= 100000
+\* the same with --allow-ambiguous on a table with ambiguity codes: distances from the codes' weights
+DistanceAmbOK(e, T) ==
+   LET c == e.ctx
+       n == NSamples(T)
+       thr == CeilThr(n, c.minf[1], c.minf[2])
+       idx(nm) == CHOOSE i \in 1..n : T.names[i] = nm
+   IN /\ Len(e.rows) = (n * (n - 1)) \div 2
+      /\ \A i \in 1..n : \A j \in (i + 1)..n :
+            \E r \in SetOf(e.rows) : (r[1] = T.names[i] /\ r[2] = T.names[j]) \/ (r[1] = T.names[j] /\ r[2] = T.names[i])
+      /\ \A r \in SetOf(e.rows) :
+            LET d == DistAmb(T, idx(r[1]), idx(r[2]), thr) IN
+            /\ Dist36OK(r[3], d[1])
+            /\ PropOK(r[4], d[2], d[3])
+            /\ r[4] >= 0 /\ r[4] <= 100000
 EvDistance(e) ==
+   LET T == Content(e.ctx.file) IN
    [ok |-> /\ Present(e.ctx.file) /\ e.ok
-           /\ Assert(Unambiguous(Content(e.ctx.file)), "DRIVER-DRIFT: distance on a table with ambiguity codes")
-           /\ DistanceOK(e, Content(e.ctx.file)),
+           /\ IF Unambiguous(T) THEN DistanceOK(e, T)
+              ELSE /\ Assert(e.ctx.allow_ambig, "DRIVER-DRIFT: distance without --allow-ambiguous on a table with ambiguity codes")
+                   /\ DistanceAmbOK(e, T),
     nf |-> Same]
 
 \* C09: both loaders tried on the saved file: exactly the loader of the width the file was
